@@ -38,6 +38,16 @@ pub struct ConcScenario {
     pub cancels: bool,
     /// Switching between actors at operation boundaries is free.
     pub free_boundaries: bool,
+    /// Operations performed (atomically, all answers ok) before the actors
+    /// start, so that races are explored from non-initial states.
+    pub pre: Vec<Pre>,
+}
+
+#[derive(Clone, Debug, PartialEq, Eq)]
+pub enum Pre {
+    /// Actor `i` (0-based) starts out holding one more object.
+    Hold(usize),
+    Resize(usize),
 }
 
 impl ConcScenario {
@@ -51,6 +61,7 @@ impl ConcScenario {
             drop_controller_handle: false,
             cancels: true,
             free_boundaries: true,
+            pre: Vec::new(),
         }
     }
 }
@@ -299,6 +310,43 @@ pub fn run_conc(sc: &ConcScenario) -> Outcome {
             w.seq_actor = None;
         });
     }
+    if !sc.pre.is_empty() {
+        w(|w| {
+            w.forced_ok = true;
+            w.seq_actor = Some(PROBE);
+        });
+        for p in &sc.pre {
+            match p {
+                Pre::Hold(a) => {
+                    let gi = w(|w| w.begin_get(PROBE, true));
+                    let pl = pool.clone();
+                    let mut t = Task::new(async move { pl.timeout_get(&nb_timeouts()).await });
+                    match t.poll() {
+                        Some(r) => finish_get(PROBE, gi, r),
+                        None => panic!("pre-history get pending"),
+                    }
+                    // hand the object over to the actor
+                    let who = a + 1;
+                    w(|w| {
+                        if let Some(o) = w.hands.get_mut(&PROBE).and_then(|v| v.pop()) {
+                            let id = o.id;
+                            w.objs[id].loc = Loc::Held(who);
+                            w.hands.entry(who).or_default().push(o);
+                        }
+                    });
+                }
+                Pre::Resize(n) => {
+                    w(|w| w.seq_actor = Some(900));
+                    op_resize(900, &pool, *n);
+                    w(|w| w.seq_actor = Some(PROBE));
+                }
+            }
+        }
+        w(|w| {
+            w.forced_ok = false;
+            w.seq_actor = None;
+        });
+    }
     let n_actors = sc.actors.len();
     let mut ctl_pool = Some(pool.clone());
     for (i, script) in sc.actors.iter().enumerate() {
@@ -433,7 +481,9 @@ pub fn run_conc(sc: &ConcScenario) -> Outcome {
         // return everything that is still checked out
         let whos: Vec<usize> = w(|w| w.hands.keys().copied().collect());
         for who in whos {
+            w(|w| w.seq_actor = Some(who));
             while op_release(who) {}
+            w(|w| w.seq_actor = None);
         }
         if let Some(p) = ctl_pool.as_ref() {
             let st = p.status();
